@@ -9,6 +9,7 @@ import (
 
 	"github.com/Masterminds/semver"
 	metav1 "k8s.io/apimachinery/pkg/apis/meta/v1"
+	"k8s.io/apimachinery/pkg/types"
 	"k8s.io/utils/ptr"
 
 	pkgmetav1 "github.com/crossplane/crossplane/apis/pkg/meta/v1"
@@ -386,6 +387,65 @@ func runResolveCase(c *kit.Ctx, i int) {
 	}
 	if nM == 0 && len(bads) == 0 {
 		c.Count("dep_reference_satisfied", 1)
+	}
+
+	// The lock changes under the revision's feet: right before its first write (adding itself to
+	// the lock) another revision leaves the lock - one this revision depends on. Whatever Resolve
+	// answers, "satisfied" must be true of the lock as it is afterwards.
+	if len(pc.lock) > 0 && len(pc.depSrc) > 0 && i%3 == 0 {
+		victim := ""
+		for _, t := range pc.depSrc {
+			if g.present[t] && t != pc.selfSrc {
+				victim = t
+				break
+			}
+		}
+		if victim == "" {
+			return
+		}
+		w2 := sim.NewWorld(pkgScheme, uint64(i)+7)
+		w2.KeepBodies = false
+		lk := &v1beta1.Lock{ObjectMeta: metav1.ObjectMeta{Name: "lock"}, Packages: pc.lock}
+		if err := w2.Client("user").Create(ctx, lk); err != nil {
+			return
+		}
+		rc := w2.Client("revision")
+		done := false
+		rc.OnCall = func(_ int, verb string) {
+			if done || (verb != "update" && verb != "patch" && verb != "create") {
+				return
+			}
+			done = true
+			cur := &v1beta1.Lock{}
+			u := w2.Client("other-revision")
+			if err := u.Get(ctx, types.NamespacedName{Name: "lock"}, cur); err != nil {
+				return
+			}
+			var keep []v1beta1.LockPackage
+			for _, p := range cur.Packages {
+				if p.Source != victim {
+					keep = append(keep, p)
+				}
+			}
+			cur.Packages = keep
+			_ = u.Update(ctx, cur)
+		}
+		m2 := revision.NewPackageDependencyManager(rc, dag.NewMapDag, gvk)
+		var err2 error
+		perr2 := kit.Try(func() { _, _, _, err2 = m2.Resolve(ctx, meta, pr) })
+		rc.OnCall = nil
+		c.Count("dep_concurrent_lock_edit_cases", 1)
+		if done && perr2 == nil && err2 == nil {
+			final := &v1beta1.Lock{}
+			_ = w2.Client("user").Get(ctx, types.NamespacedName{Name: "lock"}, final)
+			inLock := map[string]bool{}
+			for _, p := range final.Packages {
+				inLock[p.Source] = true
+			}
+			if !inLock[victim] {
+				violate(c, "resolve-satisfied-although-dependency-left-the-lock-meanwhile", cname, fmt.Sprintf("Resolve returned nil, but %s - a direct dependency - left the lock right before the revision's own write and is not in the lock now", victim), wit(map[string]any{"victim": victim}))
+			}
+		}
 	}
 }
 
